@@ -21,7 +21,7 @@ RULE = (
     "(truncation, bit flips, 4-byte count overwritten with a lie, string bytes invalid in UTF-8 and cp1252, corrupt / "
     "truncated zlib body, unknown code, zero-length frame, random body) + a TCP segmentation (chunk sizes incl. 1-byte "
     "dribble and cuts inside headers, optional gap between chunks) + optional terminal event (EOF / reset / partial "
-    "frame then EOF / partial frame then silence) + optionally a hostile first (init) frame on accepted connections. "
+    "frame then EOF / partial frame then silence, the partial frame announcing its honest length or a lie of 64 KiB / 16 MiB / ~4 GiB) + optionally a hostile first (init) frame on accepted connections. "
     "Oracle: per frame, fresh_connection.decode_message_data(frame) returns a message or raises "
     "MessageDeserializationError and nothing else (valid frames must decode to the generating value); the sequence of "
     "MessageReceivedEvents for the connection equals the decodable frames, once each, in order; afterwards the reader "
@@ -47,6 +47,9 @@ MUTS = ['none', 'none', 'none', 'trunc', 'flip', 'lie', 'badstr', 'zlib', 'unkno
 ALL_MUTS = MUTS + ['huge']      # 'huge' only in the enumerated part (multi-megabyte bodies are expensive)
 HUGE_SIZES = [70 * 1024, 1024 * 1024 + 7, 9 * 1024 * 1024 + 3]
 ENDS = [None, None, None, 'eof', 'reset', 'partial-eof', 'partial-silence']
+# announced length of the partial tail frame: honest (index 0) or a lie of 64 KiB+ / 16 MiB+ / almost 4 GiB followed
+# by 8 body bytes ("a length prefix that lies by a lot, then silence"): the read timeout must still end the read
+LIE_LENS = [None, 64 * 1024 + 5, 16 * 1024 * 1024 + 1, 0xFFFFFF00]
 
 SERVER_KEYS = [k for k in c01.KEYS if k.startswith('server:') and k.endswith(':Response')]
 PEER_KEYS = [k for k in c01.KEYS if k.startswith('peer:')]
@@ -94,6 +97,7 @@ def case_strategy(draw, mode=None):
         'seg': seg,
         'gap': draw(st.sampled_from([0, 0, 1])),
         'end': draw(st.sampled_from(ENDS)),
+        'plen': draw(st.sampled_from([0, 0, 1, 2, 3])),
         'bad_first': draw(st.integers(0, 5)) == 0 and kind != 'server',
         'init_key': draw(st.binary(min_size=4, max_size=4)).hex(),
     }
@@ -303,8 +307,9 @@ def _sanitise(case):
         init_key = bytes.fromhex((str(case.get('init_key', '')) + '00000000')[:8])
     except ValueError:
         init_key = b'\0\0\0\0'
+    plen = case.get('plen') if case.get('plen') in (0, 1, 2, 3) else 0
     return {'mode': mode, 'kind': kind, 'frames': frames, 'seg': seg, 'gap': 1 if case.get('gap') else 0,
-            'end': end, 'bad_first': bool(case.get('bad_first')) and kind != 'server', 'init_key': init_key}
+            'end': end, 'plen': plen, 'bad_first': bool(case.get('bad_first')) and kind != 'server', 'init_key': init_key}
 
 
 FUZZ_KINDS = ['server', 'peerP', 'peerD', 'init']
@@ -459,6 +464,8 @@ def run_case(case) -> CaseResult:
         tail = M.GetUserStatus.Response('x', 1, False).serialize() if kind == 'server' else (
             M.PeerPlaceInQueueReply.Request('name', 3).serialize() if group == 'peer' else
             M.DistributedBranchLevel.Request(3).serialize())
+        if c['plen']:
+            tail = struct.pack('<I', LIE_LENS[c['plen']]) + tail[4:12].ljust(8, b'\0') + b'..'
         if frames_obf:
             tail = wire_ref.obf_encode(tail, b'\x01\x02\x03\x04')
         partial = tail[:len(tail) - 2]
@@ -648,8 +655,12 @@ def run_case(case) -> CaseResult:
             res.label('partial-silence-skipped-library-wrote')
         elif end in ('eof', 'reset', 'partial-eof', 'partial-silence'):
             if out.get('state_after_end') != CS.CLOSED:
-                res.violate(f'C02/not-closed-after:{end}', f'state={out.get("state_after_end")}')
-            if end == 'partial-silence' and out.get('state_before_timeout') == CS.CLOSED and st_after != CS.CLOSED:
+                res.violate(f'C02/not-closed-after:{end}' + (':lying-length' if c['plen'] else ''),
+                            f'state={out.get("state_after_end")} announced tail length '
+                            f'{LIE_LENS[c["plen"]] if c["plen"] else "honest"}')
+            if end == 'partial-silence' and out.get('state_before_timeout') == CS.CLOSED and st_after != CS.CLOSED \
+                    and not c['plen']:
+                # (a tail announcing an absurd length may also be refused at once: not constrained)
                 res.violate('C02/closed-before-read-timeout', '')
             if out.get('reader_alive_final'):
                 res.violate(f'C02/reader-alive-after-close:{end}', '')
@@ -668,8 +679,10 @@ def run_case(case) -> CaseResult:
     res.nontrivial = bool(hostile_then_valid or (bad_first and out.get('second_ok') is not None))
     seg = c['seg']
     seg_class = 'none' if not seg else ('dribble' if max(seg) <= 3 else ('small' if max(seg) <= 9 else 'mixed'))
-    res.key = [kind, mode, [a for _, a in built], causes, seg_class, end, bad_first]
+    res.key = [kind, mode, [a for _, a in built], causes, seg_class, end, c['plen'] if end in ('partial-eof', 'partial-silence') else 0, bad_first]
     res.label('kind:' + kind, 'mode:' + mode, 'seg:' + seg_class, 'end:' + str(end))
+    if end in ('partial-eof', 'partial-silence') and c['plen']:
+        res.label('tail-length-lie:%d' % c['plen'])
     if bad_first:
         res.label('bad-first')
     if hostile_then_valid:
@@ -689,6 +702,11 @@ def _huge_cases():
                 return {'key': key, 'values': values, 'mut': mut, 'a': 77, 'b': b, 'okey': '01020304'}
             yield {'mode': 'net', 'kind': kind, 'frames': [fr('none'), fr('huge', si), fr('none'), fr('none')],
                    'seg': None, 'gap': 0, 'end': None, 'bad_first': False, 'init_key': '0a0b0c0d'}
+        # a valid frame, then a header announcing far more than ever arrives, then silence / EOF
+        for plen in (1, 2, 3):
+            for end in ('partial-silence', 'partial-eof'):
+                yield {'mode': 'net', 'kind': kind, 'frames': [fr('none')], 'seg': None, 'gap': 0, 'end': end,
+                       'plen': plen, 'bad_first': False, 'init_key': '0a0b0c0d'}
 
 
 def run_shard(ctx):
@@ -710,5 +728,5 @@ MANIFEST_ENTRY = {
                   'sequence of the stream is compared with that per-frame expectation under arbitrary segmentation. '
                   'Sampled streams; no proof.',
     'level_note': 'Trusted base: in-memory TCP model, reference encoder (frames are built without the library), '
-                  'Hypothesis. Length prefixes are capped at 64 KiB.',
+                  'Hypothesis. Length prefixes of complete frames are capped at 64 KiB except the enumerated honest 70 KiB / 1 MiB / 9 MiB frames; truncated tails announce up to ~4 GiB.',
 }
